@@ -50,7 +50,9 @@ inductive Core : Expr → Prop
 
 def sz : Expr → Nat
   | .bin _ a b => sz a + sz b + 1
-  | .neg a | .not a => sz a + 1
+  | .neg a | .not a | .dot a _ | .group a _ | .call _ a | .aggr a => sz a + 1
+  | .index a b | .query _ a b | .cons a b => sz a + sz b + 1
+  | .range a b c | .rep a b c => sz a + sz b + sz c + 1
   | _ => 1
 
 theorem sz_pos (e : Expr) : 1 ≤ sz e := by cases e <;> simp [sz]
@@ -128,14 +130,10 @@ theorem attach_other (o : BinOp) (l e : Expr) (h : ∀ x y, e ≠ .bin o x y) : 
     · simp [attach, ho]
   | _ => simp [attach]
 
-theorem norm_top (e : Expr) (o : BinOp) (h : ∀ x y, e ≠ .bin o x y) (hc : Core e) : ∀ x y, norm e ≠ .bin o x y := by
+theorem norm_top (e : Expr) (o : BinOp) (h : ∀ x y, e ≠ .bin o x y) : ∀ x y, norm e ≠ .bin o x y := by
   intro x y
-  cases hc with
-  | lit l _ => simp [norm, normWith]
-  | ident s => simp [norm, normWith]
-  | neg _ => simp [norm, normWith]
-  | not _ => simp [norm, normWith]
-  | @bin o' a b _ _ =>
+  cases e with
+  | bin o' a b =>
     rw [norm_bin]
     have ho : o' ≠ o := fun hh => h a b (by rw [hh])
     split
@@ -143,6 +141,31 @@ theorem norm_top (e : Expr) (o : BinOp) (h : ∀ x y, e ≠ .bin o x y) (hc : Co
       | bin o2 r1 r2 => by_cases h2 : o2 = o' <;> simp [attach, h2, ho]
       | _ => simp [attach, ho]
     · simp [ho]
+  | _ => simp [norm, normWith]
+
+/-- primary followed by its qualifiers (the default branch of `parseUnary`) -/
+def parsePP (n : Nat) (ts : List Tok) : Option (Expr × List Tok) :=
+  match parsePrimary n ts with
+  | some (p, r) => parsePostfix n p r
+  | none => none
+
+/-- the next token is not `(` (an identifier followed by `(` would be read as a call) -/
+def NoLp : List Tok → Prop
+  | .lp :: _ => False
+  | _ => True
+
+theorem NoQ.noLp {r : List Tok} (h : NoQ r) : NoLp r := by
+  cases r with
+  | nil => trivial
+  | cons t r => cases t <;> simp_all [NoQ, NoLp]
+
+/-- the printed form is a primary with qualifiers -/
+def PShape (e : Expr) (p : Bool) (q : Option BinOp) : Prop :=
+  match e with
+  | .bin o _ _ => binParen o p q = true
+  | .neg _ | .not _ => p = true
+  | .nil | .cons _ _ | .rep _ _ _ => False
+  | _ => True
 
 /-- side condition of `ParseOK.loop`: an unparenthesised operator expression needs a level that admits its operator and a
 follower that ends it -/
@@ -152,6 +175,8 @@ def LoopCond (e : Expr) (p : Bool) (q : Option BinOp) (m : Nat) (r : List Tok) :
   | _ => True
 
 structure ParseOK (e : Expr) : Prop where
+  pp : ∀ p q, PShape e p q → ∃ c, c ≤ sz e ∧ ∀ n, 4 * sz e ≤ n + 2 → ∀ r, NoLp r →
+      parsePP n (T e p q ++ r) = parsePostfix (n - c) (norm e) r
   unary : ∀ p q, Closed e p q → ∀ n, 4 * sz e ≤ n + 1 → ∀ r, NoQ r → parseUnary n (T e p q ++ r) = some (norm e, r)
   loop : ∀ p q, ∃ c, c ≤ sz e ∧ 1 ≤ c ∧ ∀ n, 4 * sz e ≤ n → ∀ m r,
       LoopCond e p q m r → NoQ r →
@@ -170,7 +195,7 @@ theorem loop_of_unary (e : Expr) (p : Bool) (q : Option BinOp)
   simp
 
 /-- `chain` for an operand that is not itself a chain of `o` -/
-theorem chain_of_loop (e : Expr) (o : BinOp) (ho : o.omitSame = true) (hc : Core e) (hne : ∀ x y, e ≠ .bin o x y)
+theorem chain_of_loop (e : Expr) (o : BinOp) (ho : o.omitSame = true) (hne : ∀ x y, e ≠ .bin o x y)
     (hl : ∀ n, 4 * sz e ≤ n → ∀ m r, NoQ r → parseExpr n m (T e true (some o) ++ r) = parseLoop (n - 1) m (norm e) r)
     (n : Nat) (hn : 4 * sz e + 1 ≤ n) (m : Nat) (l : Expr) (r : List Tok) (hm : m ≤ o.bp) (hr : Fol (o.bp + 1) r) :
     parseLoop n m l (.op o :: (T e true (some o) ++ r)) = parseLoop (n - 1) m (attach o l (norm e)) r := by
@@ -181,7 +206,7 @@ theorem chain_of_loop (e : Expr) (o : BinOp) (ho : o.omitSame = true) (hc : Core
   rw [hl k (by omega) _ r hr.noQ]
   obtain ⟨j, hj⟩ : ∃ j, k - 1 = j + 1 := ⟨k - 2, by omega⟩
   rw [hj, parseLoop_stop j _ _ r hr]
-  simp [attach_other o l (norm e) (norm_top e o hne hc)]
+  simp [attach_other o l (norm e) (norm_top e o hne)]
 
 theorem closed_true_none (e : Expr) : Closed e true none := by
   cases e <;> simp [Closed, binParen_true]
@@ -205,29 +230,61 @@ theorem parseUnary_paren (inner : List Tok) (x : Expr) (n c : Nat) (r : List Tok
   simp only [parseUnary, parsePrimary, h]
   exact parsePostfix_stop _ _ _ hr
 
+theorem parsePrimary_lit (l : Lit) (hl : LitWF l) (n : Nat) (r : List Tok) :
+    parsePrimary (n + 1) (litToks l ++ r) = some (.lit l, r) := by
+  have hb : ExpPrec.binaryPrintedFrom = ExpPrec.binaryStoredIn := by decide
+  cases l with
+  | real g =>
+    have hg : (real2exp g).all Char.isDigit = false := hl
+    simp only [litToks, hg]
+    simp [parsePrimary]
+  | _ => simp_all [litToks, parsePrimary, kwLit, LitWF, unescQ_escQ]
+
+theorem parsePrimary_ident (s : String) (n : Nat) (r : List Tok) (h : NoLp r) :
+    parsePrimary (n + 1) (.id s :: r) = some (.ident s, r) := by
+  cases r with
+  | nil => simp [parsePrimary]
+  | cons t r => cases t <;> simp_all [parsePrimary, NoLp]
+
+theorem parsePrimary_paren (inner : List Tok) (x : Expr) (n c : Nat) (r : List Tok) (hc : c + 1 ≤ n)
+    (h : parseExpr n 0 (inner ++ .rp :: r) = parseLoop (n - c) 0 x (.rp :: r)) :
+    parsePrimary (n + 1) (.lp :: (inner ++ .rp :: r)) = some (x, r) := by
+  obtain ⟨j, hj⟩ : ∃ j, n - c = j + 1 := ⟨n - c - 1, by omega⟩
+  rw [hj, parseLoop_stop j 0 x (.rp :: r) (by simp [Fol])] at h
+  simp only [parsePrimary, h]
+
+theorem parsePP_of_primary {n : Nat} {ts : List Tok} {x : Expr} {r : List Tok} (h : parsePrimary n ts = some (x, r)) :
+    parsePP n ts = parsePostfix n x r := by simp [parsePP, h]
+
 theorem parseOK_lit (l : Lit) (hl : LitWF l) : ParseOK (.lit l) := by
   have hu : ∀ p q n, 4 * sz (.lit l) ≤ n + 1 → ∀ r, NoQ r → parseUnary n (T (.lit l) p q ++ r) = some (norm (.lit l), r) := by
     intro p q n hn r hr
     obtain ⟨k, rfl⟩ : ∃ k, n = k + 2 := ⟨n - 2, by simp [sz] at hn; omega⟩
     rw [T_lit]; exact parseUnary_lit l hl k r hr
-  refine ⟨fun p q _ => hu p q, fun p q => ⟨1, by simp [sz], by omega, fun n hn m r _ hr => loop_of_unary _ p q (hu p q) n hn m r hr⟩,
+  refine ⟨fun p q _ => ⟨0, by omega, fun n hn r _ => by
+      obtain ⟨k, rfl⟩ : ∃ k, n = k + 1 := ⟨n - 1, by simp [sz] at hn; omega⟩
+      rw [T_lit, parsePP_of_primary (parsePrimary_lit l hl k r)]; rfl⟩, fun p q _ => hu p q, fun p q => ⟨1, by simp [sz], by omega, fun n hn m r _ hr => loop_of_unary _ p q (hu p q) n hn m r hr⟩,
     fun o ho => ⟨1, by simp [sz], by omega, fun n hn m l' r hm hr =>
-      chain_of_loop _ o ho (Core.lit l hl) (by simp) (fun n hn m r hr => loop_of_unary _ _ _ (hu _ _) n hn m r hr) n hn m l' r hm hr⟩⟩
+      chain_of_loop _ o ho (by simp) (fun n hn m r hr => loop_of_unary _ _ _ (hu _ _) n hn m r hr) n hn m l' r hm hr⟩⟩
 
 theorem parseOK_ident (s : String) : ParseOK (.ident s) := by
   have hu : ∀ p q n, 4 * sz (.ident s) ≤ n + 1 → ∀ r, NoQ r → parseUnary n (T (.ident s) p q ++ r) = some (norm (.ident s), r) := by
     intro p q n hn r hr
     obtain ⟨k, rfl⟩ : ∃ k, n = k + 2 := ⟨n - 2, by simp [sz] at hn; omega⟩
     rw [T_ident]; exact parseUnary_ident s k r hr
-  refine ⟨fun p q _ => hu p q, fun p q => ⟨1, by simp [sz], by omega, fun n hn m r _ hr => loop_of_unary _ p q (hu p q) n hn m r hr⟩,
+  refine ⟨fun p q _ => ⟨0, by omega, fun n hn r hr => by
+      obtain ⟨k, rfl⟩ : ∃ k, n = k + 1 := ⟨n - 1, by simp [sz] at hn; omega⟩
+      rw [T_ident]
+      show parsePP (k + 1) (.id s :: r) = _
+      rw [parsePP_of_primary (parsePrimary_ident s k r hr)]; rfl⟩, fun p q _ => hu p q, fun p q => ⟨1, by simp [sz], by omega, fun n hn m r _ hr => loop_of_unary _ p q (hu p q) n hn m r hr⟩,
     fun o ho => ⟨1, by simp [sz], by omega, fun n hn m l' r hm hr =>
-      chain_of_loop _ o ho (Core.ident s) (by simp) (fun n hn m r hr => loop_of_unary _ _ _ (hu _ _) n hn m r hr) n hn m l' r hm hr⟩⟩
+      chain_of_loop _ o ho (by simp) (fun n hn m r hr => loop_of_unary _ _ _ (hu _ _) n hn m r hr) n hn m l' r hm hr⟩⟩
 
 /-- prefix operators: `tok` is `.op .minus` or `.not`, `mk` the constructor -/
 theorem parseOK_prefix (tok : Tok) (mk : Expr → Expr) (e a : Expr)
     (hstep : ∀ n ts, parseUnary (n + 1) (tok :: ts) = match parseUnary n ts with | some (x, r') => some (mk x, r') | none => none)
     (hT : ∀ p q, T e p q = (if p then [.lp] else []) ++ [tok] ++ T a true none ++ (if p then [.rp] else []))
-    (hnorm : norm e = mk (norm a)) (hsz : sz e = sz a + 1) (hcore : Core e) (hnb : ∀ o x y, e ≠ .bin o x y)
+    (hnorm : norm e = mk (norm a)) (hsz : sz e = sz a + 1) (hshape : ∀ p q, PShape e p q → p = true) (hnb : ∀ o x y, e ≠ .bin o x y)
     (A : ParseOK a) : ParseOK e := by
   have hu : ∀ p q n, 4 * sz e ≤ n + 1 → ∀ r, NoQ r → parseUnary n (T e p q ++ r) = some (norm e, r) := by
     intro p q n hn r hr
@@ -248,16 +305,34 @@ theorem parseOK_prefix (tok : Tok) (mk : Expr → Expr) (e a : Expr)
         rw [hstep, A.unary true none (closed_true_none a) k (by omega) (.rp :: r) (by simp [NoQ])]
         simp)
       simpa using h
-  refine ⟨fun p q _ => hu p q, fun p q => ⟨1, by omega, by omega, fun n hn m r _ hr => loop_of_unary _ p q (hu p q) n hn m r hr⟩,
+  have hpp : ∀ p q, PShape e p q → ∃ c, c ≤ sz e ∧ ∀ n, 4 * sz e ≤ n + 2 → ∀ r, NoLp r →
+      parsePP n (T e p q ++ r) = parsePostfix (n - c) (norm e) r := by
+    intro p q hp
+    have hp' : p = true := hshape p q hp
+    subst hp'
+    refine ⟨0, by omega, fun n hn r _ => ?_⟩
+    have := sz_pos a
+    rw [hsz] at hn
+    obtain ⟨k, rfl⟩ : ∃ k, n = k + 3 := ⟨n - 3, by omega⟩
+    rw [hT, hnorm]
+    simp only [if_true, List.cons_append, List.append_assoc, List.nil_append]
+    have h := parsePrimary_paren (tok :: T a true none) (mk (norm a)) (k + 2) 1 r (by omega) (by
+      rw [parseExpr]
+      simp only [List.cons_append]
+      rw [hstep, A.unary true none (closed_true_none a) k (by omega) (.rp :: r) (by simp [NoQ])]
+      simp)
+    have h2 := parsePP_of_primary h
+    simpa using h2
+  refine ⟨hpp, fun p q _ => hu p q, fun p q => ⟨1, by omega, by omega, fun n hn m r _ hr => loop_of_unary _ p q (hu p q) n hn m r hr⟩,
     fun o ho => ⟨1, by omega, by omega, fun n hn m l' r hm hr =>
-      chain_of_loop _ o ho hcore (hnb o) (fun n hn m r hr => loop_of_unary _ _ _ (hu _ _) n hn m r hr) n hn m l' r hm hr⟩⟩
+      chain_of_loop _ o ho (hnb o) (fun n hn m r hr => loop_of_unary _ _ _ (hu _ _) n hn m r hr) n hn m l' r hm hr⟩⟩
 
-theorem parseOK_neg (a : Expr) (hc : Core a) (A : ParseOK a) : ParseOK (.neg a) :=
-  parseOK_prefix (.op .minus) .neg (.neg a) a (fun n ts => by simp only [parseUnary]; cases parseUnary n ts with | none => rfl | some v => cases v; rfl) (T_neg a) rfl (by simp [sz]) (Core.neg hc)
+theorem parseOK_neg (a : Expr) (A : ParseOK a) : ParseOK (.neg a) :=
+  parseOK_prefix (.op .minus) .neg (.neg a) a (fun n ts => by simp only [parseUnary]; cases parseUnary n ts with | none => rfl | some v => cases v; rfl) (T_neg a) rfl (by simp [sz]) (fun p q h => h)
     (by simp) A
 
-theorem parseOK_not (a : Expr) (hc : Core a) (A : ParseOK a) : ParseOK (.not a) :=
-  parseOK_prefix .not .not (.not a) a (fun n ts => by simp only [parseUnary]; cases parseUnary n ts with | none => rfl | some v => cases v; rfl) (T_not a) rfl (by simp [sz]) (Core.not hc)
+theorem parseOK_not (a : Expr) (A : ParseOK a) : ParseOK (.not a) :=
+  parseOK_prefix .not .not (.not a) a (fun n ts => by simp only [parseUnary]; cases parseUnary n ts with | none => rfl | some v => cases v; rfl) (T_not a) rfl (by simp [sz]) (fun p q h => h)
     (by simp) A
 
 theorem nextLvl_omit (o : BinOp) (h : o.omitSame = true) : nextLvl o = o.bp + 1 := by simp [nextLvl, omit_left o h]
@@ -309,7 +384,7 @@ theorem open_bin (o : BinOp) (a b : Expr) (A : ParseOK a) (B : ParseOK b) :
     congr 1
     omega
 
-theorem parseOK_bin (o : BinOp) (a b : Expr) (ha : Core a) (hb : Core b) (A : ParseOK a) (B : ParseOK b) :
+theorem parseOK_bin (o : BinOp) (a b : Expr) (A : ParseOK a) (B : ParseOK b) :
     ParseOK (.bin o a b) := by
   have hsa := sz_pos a
   have hsb := sz_pos b
@@ -326,7 +401,19 @@ theorem parseOK_bin (o : BinOp) (a b : Expr) (ha : Core a) (hb : Core b) (A : Pa
       have := Hopen k (by omega) 0 (.rp :: r) (Nat.zero_le _) (by simp [Fol])
       simpa [List.append_assoc] using this)
     simpa [List.append_assoc] using h
-  refine ⟨fun p q hc => hu p q hc, ?_, ?_⟩
+  refine ⟨?_, fun p q hc => hu p q hc, ?_, ?_⟩
+  · intro p q hp
+    have hp : binParen o p q = true := hp
+    refine ⟨0, by omega, fun n hn r _ => ?_⟩
+    rw [hsz] at hn
+    obtain ⟨k, rfl⟩ : ∃ k, n = k + 1 := ⟨n - 1, by omega⟩
+    rw [T_bin]
+    simp only [hp, if_true, List.singleton_append, List.cons_append, List.append_assoc, List.nil_append]
+    have h := parsePrimary_paren (T a true (some o) ++ .op o :: T b true (some o)) (norm (.bin o a b)) k c0 r (by omega) (by
+      have := Hopen k (by omega) 0 (.rp :: r) (Nat.zero_le _) (by simp [Fol])
+      simpa [List.append_assoc] using this)
+    have h2 := parsePP_of_primary h
+    simpa [List.append_assoc] using h2
   · intro p q
     by_cases hp : binParen o p q = true
     · exact ⟨1, by omega, by omega, fun n hn m r _ hr => loop_of_unary _ p q (hu p q hp) n hn m r hr⟩
@@ -346,7 +433,7 @@ theorem parseOK_bin (o : BinOp) (a b : Expr) (ha : Core a) (hb : Core b) (A : Pa
         rw [binParen_true] at hp
         simp [ho'] at hp
       exact ⟨1, by omega, by omega, fun n hn m l r hm hr =>
-        chain_of_loop _ o' ho' (Core.bin o ha hb) (by intro x y h; injection h with h1; exact hne h1)
+        chain_of_loop _ o' ho' (by intro x y h; injection h with h1; exact hne h1)
           (fun n hn m r hr => loop_of_unary _ _ _ (hu _ _ hp) n hn m r hr) n hn m l r hm hr⟩
     · rw [binParen_true] at hp
       simp at hp
@@ -364,25 +451,707 @@ theorem parseOK_bin (o : BinOp) (a b : Expr) (ha : Core a) (hb : Core b) (A : Pa
       rw [List.cons_append, Cb (n - da) (by omega) m _ r hm hr]
       rw [norm_bin, if_pos h1, attach_assoc, Nat.sub_sub]
 
-/-- the precedence parser reads the printed tokens of every core expression back as its normal form -/
-theorem parseOK_core : ∀ e, Core e → ParseOK e := by
-  intro e hc
-  induction hc with
-  | lit l hl => exact parseOK_lit l hl
-  | ident s => exact parseOK_ident s
-  | bin o ha hb iha ihb => exact parseOK_bin o _ _ ha hb iha ihb
-  | neg ha iha => exact parseOK_neg _ ha iha
-  | not ha iha => exact parseOK_not _ ha iha
+/-! ### qualifiers, calls, aggregate initialisers, QUERY -/
 
-theorem toks_length_ge (e : Expr) (hc : Core e) (p : Bool) (q : Option BinOp) : sz e ≤ (T e p q).length := by
-  induction hc generalizing p q with
-  | lit l hl => cases l <;> simp [T_lit, litToks, sz] <;> split <;> simp
-  | ident s => simp [T_ident, sz]
-  | bin o ha hb iha ihb =>
-    rw [T_bin]; simp only [List.length_append, sz]
-    have := iha true (some o); have := ihb true (some o)
-    simp; omega
-  | neg ha iha => rw [T_neg]; simp only [List.length_append, sz]; have := iha true none; simp; omega
-  | not ha iha => rw [T_not]; simp only [List.length_append, sz]; have := iha true none; simp; omega
+/-- the first token does not start a prefix operator -/
+def HeadP : List Tok → Prop
+  | .not :: _ => False
+  | .op .minus :: _ => False
+  | .op .plus :: _ => False
+  | _ => True
+
+theorem parseUnary_default (n : Nat) (ts : List Tok) (h : HeadP ts) : parseUnary (n + 1) ts = parsePP n ts := by
+  have fin : ∀ x : Option (Expr × List Tok),
+      (match x with | some (p, r) => parsePostfix n p r | none => none) =
+      (match x with | some (p, r) => parsePostfix n p r | none => none) := fun _ => rfl
+  cases ts with
+  | nil =>
+    simp only [parseUnary, parsePP]
+    generalize parsePrimary n [] = x
+    cases x with
+    | none => rfl
+    | some v => cases v; rfl
+  | cons t r =>
+    cases t with
+    | op o =>
+      cases o <;> first
+        | (simp [HeadP] at h; done)
+        | (simp only [parseUnary, parsePP]
+           generalize parsePrimary n _ = x
+           cases x with
+           | none => rfl
+           | some v => cases v; rfl)
+    | not => simp [HeadP] at h
+    | _ =>
+      simp only [parseUnary, parsePP]
+      generalize parsePrimary n _ = x
+      cases x with
+      | none => rfl
+      | some v => cases v; rfl
+
+/-- not one of the list spines -/
+def IsExpr : Expr → Prop
+  | .nil | .cons _ _ | .rep _ _ _ => False
+  | _ => True
+
+theorem pshape_true_none (e : Expr) (h : IsExpr e) : PShape e true none := by
+  cases e <;> simp_all [PShape, IsExpr, binParen_true]
+
+/-- everything about a node that is printed as a primary with qualifiers (not an operator node) follows from `pp` -/
+theorem parseOK_of_pp (e : Expr) (hnb : ∀ o x y, e ≠ .bin o x y) (hshape : ∀ p q, PShape e p q)
+    (hpp : ∀ p q, ∃ c, c ≤ sz e ∧ ∀ n, 4 * sz e ≤ n + 2 → ∀ r, NoLp r →
+      parsePP n (T e p q ++ r) = parsePostfix (n - c) (norm e) r)
+    (hh : ∀ p q r, HeadP (T e p q ++ r)) : ParseOK e := by
+  have hs := sz_pos e
+  have hu : ∀ p q n, 4 * sz e ≤ n + 1 → ∀ r, NoQ r → parseUnary n (T e p q ++ r) = some (norm e, r) := by
+    intro p q n hn r hr
+    obtain ⟨c, hc, H⟩ := hpp p q
+    obtain ⟨k, rfl⟩ : ∃ k, n = k + 1 := ⟨n - 1, by omega⟩
+    rw [parseUnary_default k _ (hh p q r), H k (by omega) r hr.noLp]
+    obtain ⟨j, hj⟩ : ∃ j, k - c = j + 1 := ⟨k - c - 1, by omega⟩
+    rw [hj, parsePostfix_stop j _ r hr]
+  exact ⟨fun p q _ => hpp p q, fun p q _ => hu p q,
+    fun p q => ⟨1, by omega, by omega, fun n hn m r _ hr => loop_of_unary _ p q (hu p q) n hn m r hr⟩,
+    fun o ho => ⟨1, by omega, by omega, fun n hn m l' r hm hr =>
+      chain_of_loop _ o ho (hnb o) (fun n hn m r hr => loop_of_unary _ _ _ (hu _ _) n hn m r hr) n hn m l' r hm hr⟩⟩
+
+theorem T_dot (a : Expr) (f : String) (p : Bool) (q : Option BinOp) : T (.dot a f) p q = T a true none ++ [.dot, .id f] := by simp [T, toks]
+theorem T_group (a : Expr) (f : String) (p : Bool) (q : Option BinOp) : T (.group a f) p q = T a true none ++ [.bslash, .id f] := by simp [T, toks]
+theorem T_index (a i : Expr) (p : Bool) (q : Option BinOp) :
+    T (.index a i) p q = T a true none ++ [.lb] ++ T i (indexParen i) none ++ [.rb] := by simp [T, toks]
+theorem T_range (a i j : Expr) (p : Bool) (q : Option BinOp) :
+    T (.range a i j) p q = T a true none ++ [.lb] ++ T i (indexParen i) none ++ [.colon] ++ T j (indexParen j) none ++ [.rb] := by
+  simp [T, toks]
+
+/-- head of the printed form of an expression that is a primary with qualifiers -/
+def HeadOK (e : Expr) : Prop := ∀ p q, PShape e p q → ∀ r, HeadP (T e p q ++ r)
+
+theorem headOK_lit (l : Lit) : HeadOK (.lit l) := by
+  intro p q _ r
+  rw [T_lit]
+  cases l with
+  | real g => simp only [litToks]; split <;> simp [HeadP]
+  | _ => simp [litToks, HeadP]
+
+theorem headOK_paren (e : Expr) (h : ∀ p q, PShape e p q → ∃ ts, T e p q = .lp :: ts) : HeadOK e := by
+  intro p q hp r
+  obtain ⟨ts, hts⟩ := h p q hp
+  simp [hts, HeadP]
+
+theorem headOK_append (a : Expr) (ha : HeadOK a) (hs : PShape a true none) (tl : List Tok) (r : List Tok)
+    (hne : T a true none ≠ []) : HeadP (T a true none ++ tl ++ r) := by
+  have := ha true none hs (tl ++ r)
+  simpa [List.append_assoc] using this
+
+theorem dot_step (n : Nat) (l : Expr) (f : String) (r : List Tok) :
+    parsePostfix (n + 1) l (.dot :: .id f :: r) = parsePostfix n (.dot l f) r := by simp [parsePostfix]
+theorem group_step (n : Nat) (l : Expr) (f : String) (r : List Tok) :
+    parsePostfix (n + 1) l (.bslash :: .id f :: r) = parsePostfix n (.group l f) r := by simp [parsePostfix]
+
+theorem norm_dot (a : Expr) (f : String) : norm (.dot a f) = .dot (norm a) f := rfl
+theorem norm_group (a : Expr) (f : String) : norm (.group a f) = .group (norm a) f := rfl
+theorem norm_index (a i : Expr) : norm (.index a i) = .index (norm a) (norm i) := rfl
+theorem norm_range (a i j : Expr) : norm (.range a i j) = .range (norm a) (norm i) (norm j) := rfl
+
+theorem parseOK_field (mk : Expr → String → Expr) (tok : Tok)
+    (hstep : ∀ n l f r, parsePostfix (n + 1) l (tok :: .id f :: r) = parsePostfix n (mk l f) r)
+    (hlp : ∀ r, NoLp (tok :: r))
+    (a : Expr) (f : String) (hT : ∀ p q, T (mk a f) p q = T a true none ++ [tok, .id f])
+    (hnorm : norm (mk a f) = mk (norm a) f) (hsz : sz (mk a f) = sz a + 1)
+    (hnb : ∀ o x y, mk a f ≠ .bin o x y) (hshape : ∀ p q, PShape (mk a f) p q)
+    (hx : IsExpr a) (A : ParseOK a) (hha : HeadOK a) : ParseOK (mk a f) ∧ HeadOK (mk a f) := by
+  have hs := sz_pos a
+  have hpa := pshape_true_none a hx
+  constructor
+  · apply parseOK_of_pp _ hnb hshape
+    · intro p q
+      obtain ⟨ca, hca, Ha⟩ := A.pp true none hpa
+      refine ⟨ca + 1, by omega, fun n hn r _ => ?_⟩
+      rw [hsz] at hn
+      rw [hT, hnorm, List.append_assoc]
+      simp only [List.cons_append, List.nil_append]
+      rw [Ha n (by omega) _ (hlp _)]
+      obtain ⟨k, hk⟩ : ∃ k, n - ca = k + 1 := ⟨n - ca - 1, by omega⟩
+      rw [hk, hstep]
+      congr 1; omega
+    · intro p q r
+      rw [hT, List.append_assoc]
+      exact hha true none hpa _
+  · intro p q _ r
+    rw [hT, List.append_assoc]
+    exact hha true none hpa _
+
+theorem parseOK_dot (a : Expr) (f : String) (hx : IsExpr a) (A : ParseOK a) (hha : HeadOK a) :
+    ParseOK (.dot a f) ∧ HeadOK (.dot a f) :=
+  parseOK_field .dot .dot dot_step (fun _ => by simp [NoLp]) a f (T_dot a f) rfl (by simp [sz]) (by simp) (by simp [PShape]) hx A hha
+
+theorem parseOK_group (a : Expr) (f : String) (hx : IsExpr a) (A : ParseOK a) (hha : HeadOK a) :
+    ParseOK (.group a f) ∧ HeadOK (.group a f) :=
+  parseOK_field .group .bslash group_step (fun _ => by simp [NoLp]) a f (T_group a f) rfl (by simp [sz]) (by simp) (by simp [PShape]) hx A hha
+
+/-- an operator whose expression is printed without parentheses between `[ ]` is a `simple_expression` operator -/
+theorem index_level (o : BinOp) (h : ExpPrec.indexParenOps.contains o.code = false) : simpleMin ≤ o.bp := by
+  revert h; cases o <;> decide
+
+/-- an index operand, printed with `paren = indexParen i`, followed by `]` or `:` -/
+theorem bracket_operand (i : Expr) (I : ParseOK i) (n : Nat) (hn : 4 * sz i ≤ n) (tl : List Tok)
+    (htl : ∃ r, tl = .rb :: r ∨ tl = .colon :: r) :
+    parseExpr n simpleMin (T i (indexParen i) none ++ tl) = some (norm i, tl) := by
+  have hs := sz_pos i
+  obtain ⟨c, hc, hc1, L⟩ := I.loop (indexParen i) none
+  have hfol : ∀ k, Fol k tl := by
+    intro k; obtain ⟨r, h | h⟩ := htl <;> subst h <;> simp [Fol]
+  have hcond : LoopCond i (indexParen i) none simpleMin tl := by
+    cases i with
+    | bin o x y =>
+      simp only [LoopCond]
+      by_cases hip : indexParen (.bin o x y) = true
+      · left; rw [hip, binParen_true]; simp
+      · right
+        have : ExpPrec.indexParenOps.contains o.code = false := by simpa [indexParen] using hip
+        exact ⟨index_level o this, hfol _⟩
+    | _ => simp [LoopCond]
+  rw [L n hn simpleMin tl hcond (hfol 0).noQ]
+  obtain ⟨j, hj⟩ : ∃ j, n - c = j + 1 := ⟨n - c - 1, by omega⟩
+  rw [hj, parseLoop_stop j _ _ tl (hfol _)]
+
+theorem index_step (n : Nat) (l i : Expr) (rest r : List Tok)
+    (h : parseExpr n simpleMin rest = some (i, .rb :: r)) :
+    parsePostfix (n + 1) l (.lb :: rest) = parsePostfix n (.index l i) r := by
+  simp [parsePostfix, h]
+
+theorem range_step (n : Nat) (l i j : Expr) (rest r' r : List Tok)
+    (h1 : parseExpr n simpleMin rest = some (i, .colon :: r'))
+    (h2 : parseExpr n simpleMin r' = some (j, .rb :: r)) :
+    parsePostfix (n + 1) l (.lb :: rest) = parsePostfix n (.range l i j) r := by
+  simp [parsePostfix, h1, h2]
+
+theorem parseOK_index (a i : Expr) (hx : IsExpr a) (A : ParseOK a) (hha : HeadOK a) (I : ParseOK i) :
+    ParseOK (.index a i) ∧ HeadOK (.index a i) := by
+  have hsa := sz_pos a
+  have hsi := sz_pos i
+  have hpa := pshape_true_none a hx
+  have hsz : sz (.index a i) = sz a + sz i + 1 := by simp [sz]
+  constructor
+  · apply parseOK_of_pp _ (by simp) (by simp [PShape])
+    · intro p q
+      obtain ⟨ca, hca, Ha⟩ := A.pp true none hpa
+      refine ⟨ca + 1, by omega, fun n hn r _ => ?_⟩
+      rw [hsz] at hn
+      rw [T_index, norm_index]
+      simp only [List.append_assoc, List.cons_append, List.nil_append]
+      rw [Ha n (by omega) _ (by simp [NoLp])]
+      obtain ⟨k, hk⟩ : ∃ k, n - ca = k + 1 := ⟨n - ca - 1, by omega⟩
+      rw [hk, index_step k _ (norm i) _ r (bracket_operand i I k (by omega) _ ⟨r, Or.inl rfl⟩)]
+      congr 1; omega
+    · intro p q r
+      rw [T_index]; simp only [List.append_assoc]
+      exact hha true none hpa _
+  · intro p q _ r
+    rw [T_index]; simp only [List.append_assoc]
+    exact hha true none hpa _
+
+theorem parseOK_range (a i j : Expr) (hx : IsExpr a) (A : ParseOK a) (hha : HeadOK a) (I : ParseOK i) (J : ParseOK j) :
+    ParseOK (.range a i j) ∧ HeadOK (.range a i j) := by
+  have hsa := sz_pos a
+  have hsi := sz_pos i
+  have hsj := sz_pos j
+  have hpa := pshape_true_none a hx
+  have hsz : sz (.range a i j) = sz a + sz i + sz j + 1 := by simp [sz]
+  constructor
+  · apply parseOK_of_pp _ (by simp) (by simp [PShape])
+    · intro p q
+      obtain ⟨ca, hca, Ha⟩ := A.pp true none hpa
+      refine ⟨ca + 1, by omega, fun n hn r _ => ?_⟩
+      rw [hsz] at hn
+      rw [T_range, norm_range]
+      simp only [List.append_assoc, List.cons_append, List.nil_append]
+      rw [Ha n (by omega) _ (by simp [NoLp])]
+      obtain ⟨k, hk⟩ : ∃ k, n - ca = k + 1 := ⟨n - ca - 1, by omega⟩
+      rw [hk, range_step k _ (norm i) (norm j) _ _ r
+        (bracket_operand i I k (by omega) _ ⟨_, Or.inr rfl⟩)
+        (bracket_operand j J k (by omega) _ ⟨r, Or.inl rfl⟩)]
+      congr 1; omega
+    · intro p q r
+      rw [T_range]; simp only [List.append_assoc]
+      exact hha true none hpa _
+  · intro p q _ r
+    rw [T_range]; simp only [List.append_assoc]
+    exact hha true none hpa _
+
+/-! ### well-formed expressions, list spines -/
+
+mutual
+/-- expressions the parser can build (argument and item lists are proper `cons`/`rep` spines) -/
+def wfE : Expr → Prop
+  | .lit l => LitWF l
+  | .ident _ => True
+  | .bin _ a b => wfE a ∧ wfE b
+  | .neg a | .not a | .dot a _ | .group a _ => wfE a
+  | .index a i => wfE a ∧ wfE i
+  | .range a i j => wfE a ∧ wfE i ∧ wfE j
+  | .query _ s c => wfE s ∧ wfE c
+  | .call _ as => wfArgs as
+  | .aggr is => wfItems is
+  | .nil | .cons _ _ | .rep _ _ _ => False
+def wfArgs : Expr → Prop
+  | .nil => True
+  | .cons e t => wfE e ∧ wfArgs t
+  | _ => False
+def wfItems : Expr → Prop
+  | .nil => True
+  | .cons e t => wfE e ∧ wfItems t
+  | .rep e c t => wfE e ∧ wfE c ∧ wfItems t
+  | _ => False
+end
+
+theorem wfE.isExpr {e : Expr} (h : wfE e) : IsExpr e := by
+  cases e <;> simp_all [wfE, IsExpr]
+
+/-- tokens an expression can start with -/
+def Starter : Tok → Prop
+  | .rp | .rb | .comma | .colon | .dot | .bslash | .bar | .allIn => False
+  | .op o => o = .minus
+  | _ => True
+
+theorem head_append {t : Tok} {ts X : List Tok} (h : X = t :: ts) (Y : List Tok) : ∃ ts', X ++ Y = t :: ts' :=
+  ⟨ts ++ Y, by rw [h]; rfl⟩
+
+theorem T_start : ∀ e, wfE e → ∀ p q, ∃ t ts, T e p q = t :: ts ∧ Starter t := by
+  intro e
+  induction e with
+  | lit l =>
+    intro _ p q
+    rw [T_lit]
+    cases l with
+    | real g => simp only [litToks]; split <;> exact ⟨_, _, rfl, by simp [Starter]⟩
+    | _ => exact ⟨_, _, rfl, by simp [Starter]⟩
+  | ident s => intro _ p q; exact ⟨_, _, T_ident s p q, by simp [Starter]⟩
+  | bin o a b iha _ =>
+    intro h p q
+    rw [T_bin]
+    by_cases hp : binParen o p q = true
+    · simp only [hp, if_true]; exact ⟨.lp, _, rfl, by simp [Starter]⟩
+    · obtain ⟨t, ts, ht, hs⟩ := iha h.1 true (some o)
+      simp only [hp, Bool.false_eq_true, if_false, List.nil_append, List.append_nil, List.append_assoc]
+      obtain ⟨ts', h'⟩ := head_append ht ([Tok.op o] ++ T b true (some o))
+      exact ⟨t, ts', h', hs⟩
+  | neg a _ =>
+    intro _ p q; rw [T_neg]
+    cases p
+    · exact ⟨.op .minus, _, rfl, by simp [Starter]⟩
+    · exact ⟨.lp, _, rfl, by simp [Starter]⟩
+  | not a _ =>
+    intro _ p q; rw [T_not]
+    cases p
+    · exact ⟨.not, _, rfl, by simp [Starter]⟩
+    · exact ⟨.lp, _, rfl, by simp [Starter]⟩
+  | dot a f iha =>
+    intro h p q; obtain ⟨t, ts, ht, hs⟩ := iha h true none
+    rw [T_dot]; obtain ⟨ts', h'⟩ := head_append ht _; exact ⟨t, ts', h', hs⟩
+  | group a f iha =>
+    intro h p q; obtain ⟨t, ts, ht, hs⟩ := iha h true none
+    rw [T_group]; obtain ⟨ts', h'⟩ := head_append ht _; exact ⟨t, ts', h', hs⟩
+  | index a i iha _ =>
+    intro h p q; obtain ⟨t, ts, ht, hs⟩ := iha h.1 true none
+    rw [T_index]; simp only [List.append_assoc]
+    obtain ⟨ts', h'⟩ := head_append ht _; exact ⟨t, ts', h', hs⟩
+  | range a i j iha _ _ =>
+    intro h p q; obtain ⟨t, ts, ht, hs⟩ := iha h.1 true none
+    rw [T_range]; simp only [List.append_assoc]
+    obtain ⟨ts', h'⟩ := head_append ht _; exact ⟨t, ts', h', hs⟩
+  | query v s c _ _ => intro _ p q; exact ⟨.kw "QUERY", _, rfl, by simp [Starter]⟩
+  | call f as _ => intro _ p q; exact ⟨.id f, _, rfl, by simp [Starter]⟩
+  | aggr is _ => intro _ p q; exact ⟨.lb, _, rfl, by simp [Starter]⟩
+  | nil => intro h; simp [wfE] at h
+  | cons e t _ _ => intro h; simp [wfE] at h
+  | rep e c t _ _ _ => intro h; simp [wfE] at h
+
+/-- a complete expression in a position printed with `paren = 0` (argument, element, count), followed by a closer -/
+theorem top_expr (e : Expr) (E : ParseOK e) (n : Nat) (hn : 4 * sz e ≤ n) (tl : List Tok) (hfol : ∀ k, Fol k tl) :
+    parseExpr n 0 (T e false none ++ tl) = some (norm e, tl) := by
+  have hs := sz_pos e
+  obtain ⟨c, hc, hc1, L⟩ := E.loop false none
+  have hcond : LoopCond e false none 0 tl := by
+    cases e <;> simp [LoopCond]
+    exact Or.inr (hfol _)
+  rw [L n hn 0 tl hcond (hfol 0).noQ]
+  obtain ⟨j, hj⟩ : ∃ j, n - c = j + 1 := ⟨n - c - 1, by omega⟩
+  rw [hj, parseLoop_stop j _ _ tl (hfol _)]
+
+/-- the same for a position printed with `paren = 1` (the operands of QUERY) -/
+theorem closed_expr (e : Expr) (E : ParseOK e) (n : Nat) (hn : 4 * sz e ≤ n) (tl : List Tok) (hfol : ∀ k, Fol k tl) :
+    parseExpr n 0 (T e true none ++ tl) = some (norm e, tl) := by
+  have hs := sz_pos e
+  obtain ⟨c, hc, hc1, L⟩ := E.loop true none
+  have hcond : LoopCond e true none 0 tl := by
+    cases e <;> simp [LoopCond, binParen_true]
+  rw [L n hn 0 tl hcond (hfol 0).noQ]
+  obtain ⟨j, hj⟩ : ∃ j, n - c = j + 1 := ⟨n - c - 1, by omega⟩
+  rw [hj, parseLoop_stop j _ _ tl (hfol _)]
+
+abbrev AT := argToks Shared.clean
+abbrev IT := itemToks Shared.clean
+
+def ArgsOK (s : Expr) : Prop :=
+  ∀ n, 4 * sz s ≤ n → ∀ r, parseArgs n (AT s true ++ .rp :: r) = some (norm s, .rp :: r)
+def ItemsOK (s : Expr) : Prop :=
+  ∀ n, 4 * sz s ≤ n → ∀ r, parseItems n (IT s true ++ .rb :: r) = some (norm s, .rb :: r)
+
+theorem AT_cons (e t : Expr) (first : Bool) :
+    AT (.cons e t) first = (if first then [] else [.comma]) ++ T e false none ++ AT t false := by simp [AT, T, argToks]
+theorem AT_nil (first : Bool) : AT .nil first = [] := by simp [AT, argToks]
+theorem norm_cons (e t : Expr) : norm (.cons e t) = .cons (norm e) (norm t) := rfl
+theorem norm_rep (e c t : Expr) : norm (.rep e c t) = .rep (norm e) (norm c) (norm t) := rfl
+theorem norm_nil : norm .nil = .nil := rfl
+
+theorem argsOK_cons (e t : Expr) (E : ParseOK e) (ht : t = .nil ∨ ((∃ e2 t2, t = .cons e2 t2) ∧ ArgsOK t)) : ArgsOK (.cons e t) := by
+  intro n hn r
+  have hse := sz_pos e
+  have hst := sz_pos t
+  have hsz : sz (.cons e t) = sz e + sz t + 1 := by simp [sz]
+  rw [hsz] at hn
+  obtain ⟨k, rfl⟩ : ∃ k, n = k + 1 := ⟨n - 1, by omega⟩
+  rcases ht with rfl | ⟨⟨e2, t2, rfl⟩, H⟩
+  · rw [AT_cons, AT_nil]
+    simp only [if_true, List.nil_append, List.append_nil]
+    rw [parseArgs, top_expr e E k (by omega) _ (by intro k; simp [Fol])]
+    simp [norm_cons, norm_nil]
+  · rw [AT_cons, AT_cons]
+    simp only [if_true, Bool.false_eq_true, if_false, List.nil_append, List.append_assoc, List.singleton_append, List.cons_append]
+    rw [parseArgs, top_expr e E k (by omega) _ (by intro k; simp [Fol])]
+    have := H k (by omega) r
+    rw [AT_cons] at this
+    simp only [if_true, List.nil_append, List.append_assoc] at this
+    simp only [this, norm_cons]
+
+theorem sharedRep_clean (e : Expr) : sharedRep Shared.clean e = false := by
+  unfold sharedRep; split <;> rfl
+
+theorem IT_cons (e t : Expr) (first : Bool) :
+    IT (.cons e t) first = (if first then [] else [.comma]) ++ T e false none ++ IT t false := by
+  simp only [IT, T, itemToks, sharedRep_clean]
+  simp
+
+theorem IT_rep (e c t : Expr) (first : Bool) :
+    IT (.rep e c t) first = (if first then [] else [.comma]) ++ T e false none ++ [.colon] ++ T c false none ++ IT t false := by
+  have h : ExpPrec.repeatOverwritesCountType = false := rfl
+  simp only [IT, T, itemToks, sharedRep_clean, h]
+  simp
+
+theorem IT_nil (first : Bool) : IT .nil first = [] := by simp [IT, itemToks]
+
+/-- a non-empty item spine -/
+def NEItems (t : Expr) : Prop := (∃ e2 t2, t = .cons e2 t2) ∨ (∃ e2 c2 t2, t = .rep e2 c2 t2)
+
+theorem IT_false (t : Expr) (h : NEItems t) : IT t false = .comma :: IT t true := by
+  rcases h with ⟨e2, t2, rfl⟩ | ⟨e2, c2, t2, rfl⟩
+  · simp [IT_cons]
+  · simp [IT_rep]
+
+theorem itemsOK_cons (e t : Expr) (E : ParseOK e) (ht : t = .nil ∨ (NEItems t ∧ ItemsOK t)) : ItemsOK (.cons e t) := by
+  intro n hn r
+  have hse := sz_pos e
+  have hst := sz_pos t
+  have hsz : sz (.cons e t) = sz e + sz t + 1 := by simp [sz]
+  rw [hsz] at hn
+  obtain ⟨k, rfl⟩ : ∃ k, n = k + 1 := ⟨n - 1, by omega⟩
+  rcases ht with rfl | ⟨hne, H⟩
+  · rw [IT_cons, IT_nil]
+    simp only [if_true, List.nil_append, List.append_nil]
+    rw [parseItems, top_expr e E k (by omega) _ (by intro k; simp [Fol])]
+    simp [norm_cons, norm_nil]
+  · rw [IT_cons, IT_false t hne]
+    simp only [if_true, List.nil_append, List.append_assoc, List.cons_append]
+    rw [parseItems, top_expr e E k (by omega) _ (by intro k; simp [Fol])]
+    simp only [H k (by omega) r, norm_cons]
+
+theorem itemsOK_rep (e c t : Expr) (E : ParseOK e) (C : ParseOK c) (ht : t = .nil ∨ (NEItems t ∧ ItemsOK t)) :
+    ItemsOK (.rep e c t) := by
+  intro n hn r
+  have hse := sz_pos e
+  have hsc := sz_pos c
+  have hst := sz_pos t
+  have hsz : sz (.rep e c t) = sz e + sz c + sz t + 1 := by simp [sz]
+  rw [hsz] at hn
+  obtain ⟨k, rfl⟩ : ∃ k, n = k + 1 := ⟨n - 1, by omega⟩
+  rcases ht with rfl | ⟨hne, H⟩
+  · rw [IT_rep, IT_nil]
+    simp only [if_true, List.nil_append, List.append_nil, List.append_assoc, List.singleton_append, List.cons_append]
+    rw [parseItems, top_expr e E k (by omega) _ (by intro k; simp [Fol])]
+    simp only []
+    rw [top_expr c C k (by omega) _ (by intro k; simp [Fol])]
+    simp [norm_rep, norm_nil]
+  · rw [IT_rep, IT_false t hne]
+    simp only [if_true, List.nil_append, List.append_assoc, List.singleton_append, List.cons_append]
+    rw [parseItems, top_expr e E k (by omega) _ (by intro k; simp [Fol])]
+    simp only []
+    rw [top_expr c C k (by omega) _ (by intro k; simp [Fol])]
+    simp only [H k (by omega) r, norm_rep]
+
+/-- `f( args )` -/
+theorem primary_call (n : Nat) (f : String) (full : List Tok) (x : Expr) (r : List Tok)
+    (hst : ∃ t ts, full = t :: ts ∧ Starter t) (H : parseArgs n full = some (x, .rp :: r)) :
+    parsePrimary (n + 1) (.id f :: .lp :: full) = some (.call f x, r) := by
+  obtain ⟨t, ts, rfl, hs⟩ := hst
+  cases t <;> simp_all [parsePrimary, Starter]
+
+/-- `[ items ]` -/
+theorem primary_aggr (n : Nat) (full : List Tok) (x : Expr) (r : List Tok)
+    (hst : ∃ t ts, full = t :: ts ∧ Starter t) (H : parseItems n full = some (x, .rb :: r)) :
+    parsePrimary (n + 1) (.lb :: full) = some (.aggr x, r) := by
+  obtain ⟨t, ts, rfl, hs⟩ := hst
+  cases t <;> simp_all [parsePrimary, Starter]
+
+theorem primary_query (n : Nat) (v : String) (rest r' r : List Tok) (s c : Expr)
+    (h1 : parseExpr n 0 rest = some (s, .bar :: r')) (h2 : parseExpr n 0 r' = some (c, .rp :: r)) :
+    parsePrimary (n + 1) (.kw "QUERY" :: .lp :: .id v :: .allIn :: rest) = some (.query v s c, r) := by
+  simp [parsePrimary, h1, h2]
+
+theorem T_call (f : String) (as : Expr) (p : Bool) (q : Option BinOp) :
+    T (.call f as) p q = [.id f, .lp] ++ AT as true ++ [.rp] := by simp [T, AT, toks]
+theorem T_aggr (is : Expr) (p : Bool) (q : Option BinOp) :
+    T (.aggr is) p q = [.lb] ++ IT is true ++ [.rb] := by simp [T, IT, toks]
+theorem T_query (v : String) (s c : Expr) (p : Bool) (q : Option BinOp) :
+    T (.query v s c) p q = [.kw "QUERY", .lp, .id v, .allIn] ++ T s true none ++ [.bar] ++ T c true none ++ [.rp] := by
+  simp [T, toks]
+
+theorem parseOK_call (f : String) (as : Expr)
+    (has : as = .nil ∨ (∃ e t, as = .cons e t ∧ wfE e ∧ ArgsOK as)) : ParseOK (.call f as) ∧ HeadOK (.call f as) := by
+  have hsz : sz (.call f as) = sz as + 1 := by simp [sz]
+  have hs := sz_pos as
+  constructor
+  · apply parseOK_of_pp _ (by simp) (by simp [PShape])
+    · intro p q
+      refine ⟨0, by omega, fun n hn r _ => ?_⟩
+      rw [hsz] at hn
+      obtain ⟨k, rfl⟩ : ∃ k, n = k + 1 := ⟨n - 1, by omega⟩
+      rw [T_call]
+      rcases has with rfl | ⟨e, t, rfl, hwe, H⟩
+      · rw [AT_nil]
+        show parsePP (k + 1) (.id f :: .lp :: .rp :: r) = _
+        have : parsePrimary (k + 1) (.id f :: .lp :: .rp :: r) = some (.call f .nil, r) := by simp [parsePrimary]
+        rw [parsePP_of_primary this]; rfl
+      · simp only [List.append_assoc, List.cons_append, List.nil_append]
+        have hst : ∃ t0 ts, AT (.cons e t) true ++ ([Tok.rp] ++ r) = t0 :: ts ∧ Starter t0 := by
+          obtain ⟨t0, ts, ht, hs0⟩ := T_start e hwe false none
+          rw [AT_cons]; simp only [if_true, List.nil_append, List.append_assoc]
+          obtain ⟨ts', h'⟩ := head_append ht (AT t false ++ ([Tok.rp] ++ r))
+          exact ⟨t0, ts', h', hs0⟩
+        have := primary_call k f _ (norm (.cons e t)) r hst (by
+          have := H k (by omega) r
+          simpa using this)
+        simp only [List.singleton_append] at this
+        rw [parsePP_of_primary this]; rfl
+    · intro p q r; rw [T_call]; simp [HeadP]
+  · intro p q _ r; rw [T_call]; simp [HeadP]
+
+theorem parseOK_aggr (is : Expr)
+    (his : is = .nil ∨ (NEItems is ∧ (∃ t0 ts, ∀ X, IT is true ++ X = t0 :: (ts ++ X) ∧ Starter t0) ∧ ItemsOK is)) :
+    ParseOK (.aggr is) ∧ HeadOK (.aggr is) := by
+  have hsz : sz (.aggr is) = sz is + 1 := by simp [sz]
+  have hs := sz_pos is
+  constructor
+  · apply parseOK_of_pp _ (by simp) (by simp [PShape])
+    · intro p q
+      refine ⟨0, by omega, fun n hn r _ => ?_⟩
+      rw [hsz] at hn
+      obtain ⟨k, rfl⟩ : ∃ k, n = k + 1 := ⟨n - 1, by omega⟩
+      rw [T_aggr]
+      rcases his with rfl | ⟨_, ⟨t0, ts, hst⟩, H⟩
+      · rw [IT_nil]
+        show parsePP (k + 1) (.lb :: .rb :: r) = _
+        have : parsePrimary (k + 1) (.lb :: .rb :: r) = some (.aggr .nil, r) := by simp [parsePrimary]
+        rw [parsePP_of_primary this]; rfl
+      · simp only [List.append_assoc, List.cons_append, List.nil_append]
+        have := primary_aggr k (IT is true ++ (.rb :: r)) (norm is) r ⟨t0, _, (hst (.rb :: r)).1, (hst (.rb :: r)).2⟩ (H k (by omega) r)
+        rw [parsePP_of_primary this]; rfl
+    · intro p q r; rw [T_aggr]; simp [HeadP]
+  · intro p q _ r; rw [T_aggr]; simp [HeadP]
+
+theorem parseOK_query (v : String) (s c : Expr) (S : ParseOK s) (C : ParseOK c) :
+    ParseOK (.query v s c) ∧ HeadOK (.query v s c) := by
+  have hsz : sz (.query v s c) = sz s + sz c + 1 := by simp [sz]
+  have hss := sz_pos s
+  have hsc := sz_pos c
+  constructor
+  · apply parseOK_of_pp _ (by simp) (by simp [PShape])
+    · intro p q
+      refine ⟨0, by omega, fun n hn r _ => ?_⟩
+      rw [hsz] at hn
+      obtain ⟨k, rfl⟩ : ∃ k, n = k + 1 := ⟨n - 1, by omega⟩
+      rw [T_query]
+      simp only [List.append_assoc, List.cons_append, List.nil_append]
+      have := primary_query k v _ _ r (norm s) (norm c)
+        (closed_expr s S k (by omega) (.bar :: (T c true none ++ .rp :: r)) (by intro k; simp [Fol]))
+        (closed_expr c C k (by omega) (.rp :: r) (by intro k; simp [Fol]))
+      rw [parsePP_of_primary this]; rfl
+    · intro p q r; rw [T_query]; simp [HeadP]
+  · intro p q _ r; rw [T_query]; simp [HeadP]
+
+theorem headOK_ident (s : String) : HeadOK (.ident s) := by
+  intro p q _ r; rw [T_ident]; simp [HeadP]
+
+/-- the whole expression grammar -/
+theorem parseOK_all : ∀ e : Expr,
+    (wfE e → ParseOK e ∧ HeadOK e) ∧ (wfArgs e → (∃ a t, e = .cons a t) → ArgsOK e) ∧ (wfItems e → NEItems e → ItemsOK e) := by
+  intro e
+  induction e with
+  | lit l => exact ⟨fun h => ⟨parseOK_lit l h, headOK_lit l⟩, fun h => by simp [wfArgs] at h, fun h => by simp [wfItems] at h⟩
+  | ident s => exact ⟨fun _ => ⟨parseOK_ident s, headOK_ident s⟩, fun h => by simp [wfArgs] at h, fun h => by simp [wfItems] at h⟩
+  | bin o a b iha ihb =>
+    refine ⟨fun h => ⟨parseOK_bin o a b (iha.1 h.1).1 (ihb.1 h.2).1, ?_⟩, fun h => by simp [wfArgs] at h, fun h => by simp [wfItems] at h⟩
+    apply headOK_paren
+    intro p q hp
+    have hp : binParen o p q = true := hp
+    rw [T_bin]; simp only [hp, if_true]; exact ⟨_, rfl⟩
+  | neg a iha =>
+    refine ⟨fun h => ⟨parseOK_neg a (iha.1 h).1, ?_⟩, fun h => by simp [wfArgs] at h, fun h => by simp [wfItems] at h⟩
+    apply headOK_paren
+    intro p q hp
+    have hp : p = true := hp
+    subst hp; rw [T_neg]; exact ⟨_, rfl⟩
+  | not a iha =>
+    refine ⟨fun h => ⟨parseOK_not a (iha.1 h).1, ?_⟩, fun h => by simp [wfArgs] at h, fun h => by simp [wfItems] at h⟩
+    apply headOK_paren
+    intro p q hp
+    have hp : p = true := hp
+    subst hp; rw [T_not]; exact ⟨_, rfl⟩
+  | dot a f iha =>
+    exact ⟨fun h => parseOK_dot a f (wfE.isExpr h) (iha.1 h).1 (iha.1 h).2, fun h => by simp [wfArgs] at h, fun h => by simp [wfItems] at h⟩
+  | group a f iha =>
+    exact ⟨fun h => parseOK_group a f (wfE.isExpr h) (iha.1 h).1 (iha.1 h).2, fun h => by simp [wfArgs] at h, fun h => by simp [wfItems] at h⟩
+  | index a i iha ihi =>
+    exact ⟨fun h => parseOK_index a i (wfE.isExpr h.1) (iha.1 h.1).1 (iha.1 h.1).2 (ihi.1 h.2).1,
+      fun h => by simp [wfArgs] at h, fun h => by simp [wfItems] at h⟩
+  | range a i j iha ihi ihj =>
+    exact ⟨fun h => parseOK_range a i j (wfE.isExpr h.1) (iha.1 h.1).1 (iha.1 h.1).2 (ihi.1 h.2.1).1 (ihj.1 h.2.2).1,
+      fun h => by simp [wfArgs] at h, fun h => by simp [wfItems] at h⟩
+  | query v s c ihs ihc =>
+    exact ⟨fun h => parseOK_query v s c (ihs.1 h.1).1 (ihc.1 h.2).1, fun h => by simp [wfArgs] at h, fun h => by simp [wfItems] at h⟩
+  | call f as ih =>
+    refine ⟨fun h => parseOK_call f as ?_, fun h => by simp [wfArgs] at h, fun h => by simp [wfItems] at h⟩
+    have h : wfArgs as := h
+    cases as with
+    | nil => exact Or.inl rfl
+    | cons e t => exact Or.inr ⟨e, t, rfl, h.1, ih.2.1 h ⟨e, t, rfl⟩⟩
+    | _ => simp [wfArgs] at h
+  | aggr is ih =>
+    refine ⟨fun h => parseOK_aggr is ?_, fun h => by simp [wfArgs] at h, fun h => by simp [wfItems] at h⟩
+    have h : wfItems is := h
+    cases is with
+    | nil => exact Or.inl rfl
+    | cons e t =>
+      have hne : NEItems (.cons e t) := Or.inl ⟨e, t, rfl⟩
+      obtain ⟨t0, ts, ht, hs0⟩ := T_start e h.1 false none
+      refine Or.inr ⟨hne, ⟨t0, ts ++ IT t false, fun X => ⟨?_, hs0⟩⟩, ih.2.2 h hne⟩
+      rw [IT_cons]; simp [ht]
+    | rep e c t =>
+      have hne : NEItems (.rep e c t) := Or.inr ⟨e, c, t, rfl⟩
+      obtain ⟨t0, ts, ht, hs0⟩ := T_start e h.1 false none
+      refine Or.inr ⟨hne, ⟨t0, ts ++ ([.colon] ++ T c false none ++ IT t false), fun X => ⟨?_, hs0⟩⟩, ih.2.2 h hne⟩
+      rw [IT_rep]; simp [ht]
+    | _ => simp [wfItems] at h
+  | nil =>
+    refine ⟨fun h => by simp [wfE] at h, fun _ h => ?_, fun _ h => ?_⟩
+    · obtain ⟨a, t, h⟩ := h; cases h
+    · rcases h with ⟨a, t, h⟩ | ⟨a, c, t, h⟩ <;> cases h
+  | cons e t ihe iht =>
+    refine ⟨fun h => by simp [wfE] at h, fun h _ => ?_, fun h _ => ?_⟩
+    · have h : wfE e ∧ wfArgs t := h
+      apply argsOK_cons e t (ihe.1 h.1).1
+      cases t with
+      | nil => exact Or.inl rfl
+      | cons e2 t2 => exact Or.inr ⟨⟨e2, t2, rfl⟩, iht.2.1 h.2 ⟨e2, t2, rfl⟩⟩
+      | _ => have := h.2; simp [wfArgs] at this
+    · have h : wfE e ∧ wfItems t := h
+      apply itemsOK_cons e t (ihe.1 h.1).1
+      cases t with
+      | nil => exact Or.inl rfl
+      | cons e2 t2 => exact Or.inr ⟨Or.inl ⟨e2, t2, rfl⟩, iht.2.2 h.2 (Or.inl ⟨e2, t2, rfl⟩)⟩
+      | rep e2 c2 t2 => exact Or.inr ⟨Or.inr ⟨e2, c2, t2, rfl⟩, iht.2.2 h.2 (Or.inr ⟨e2, c2, t2, rfl⟩)⟩
+      | _ => have := h.2; simp [wfItems] at this
+  | rep e c t ihe ihc iht =>
+    refine ⟨fun h => by simp [wfE] at h, fun h => by simp [wfArgs] at h, fun h _ => ?_⟩
+    have h : wfE e ∧ wfE c ∧ wfItems t := h
+    apply itemsOK_rep e c t (ihe.1 h.1).1 (ihc.1 h.2.1).1
+    cases t with
+    | nil => exact Or.inl rfl
+    | cons e2 t2 => exact Or.inr ⟨Or.inl ⟨e2, t2, rfl⟩, iht.2.2 h.2.2 (Or.inl ⟨e2, t2, rfl⟩)⟩
+    | rep e2 c2 t2 => exact Or.inr ⟨Or.inr ⟨e2, c2, t2, rfl⟩, iht.2.2 h.2.2 (Or.inr ⟨e2, c2, t2, rfl⟩)⟩
+    | _ => have := h.2.2; simp [wfItems] at this
+
+theorem len_AT_false (t : Expr) : (AT t true).length ≤ (AT t false).length := by
+  cases t <;> simp [AT, argToks]
+theorem len_IT_false (t : Expr) : (IT t true).length ≤ (IT t false).length := by
+  cases t with
+  | cons e t => simp [IT_cons]
+  | rep e c t => simp [IT_rep]
+  | _ => simp [IT, itemToks]
+
+/-- the printed form has at least half as many tokens as the expression has nodes -/
+theorem sz_le_toks : ∀ e : Expr,
+    (wfE e → ∀ p q, sz e + 1 ≤ 2 * (T e p q).length) ∧ (wfArgs e → sz e ≤ 2 * (AT e true).length + 1)
+      ∧ (wfItems e → sz e ≤ 2 * (IT e true).length + 1) := by
+  intro e
+  induction e with
+  | lit l =>
+    refine ⟨fun _ p q => ?_, fun h => by simp [wfArgs] at h, fun h => by simp [wfItems] at h⟩
+    rw [T_lit]; cases l <;> simp [litToks, sz] <;> split <;> simp
+  | ident s => exact ⟨fun _ p q => by simp [T_ident, sz], fun h => by simp [wfArgs] at h, fun h => by simp [wfItems] at h⟩
+  | bin o a b iha ihb =>
+    refine ⟨fun h p q => ?_, fun h => by simp [wfArgs] at h, fun h => by simp [wfItems] at h⟩
+    have := iha.1 h.1 true (some o); have := ihb.1 h.2 true (some o)
+    rw [T_bin]; simp only [List.length_append, sz]; simp; omega
+  | neg a iha =>
+    refine ⟨fun h p q => ?_, fun h => by simp [wfArgs] at h, fun h => by simp [wfItems] at h⟩
+    have := iha.1 h true none
+    rw [T_neg]; simp only [List.length_append, sz]; simp; omega
+  | not a iha =>
+    refine ⟨fun h p q => ?_, fun h => by simp [wfArgs] at h, fun h => by simp [wfItems] at h⟩
+    have := iha.1 h true none
+    rw [T_not]; simp only [List.length_append, sz]; simp; omega
+  | dot a f iha =>
+    refine ⟨fun h p q => ?_, fun h => by simp [wfArgs] at h, fun h => by simp [wfItems] at h⟩
+    have := iha.1 h true none
+    rw [T_dot]; simp only [List.length_append, sz]; simp; omega
+  | group a f iha =>
+    refine ⟨fun h p q => ?_, fun h => by simp [wfArgs] at h, fun h => by simp [wfItems] at h⟩
+    have := iha.1 h true none
+    rw [T_group]; simp only [List.length_append, sz]; simp; omega
+  | index a i iha ihi =>
+    refine ⟨fun h p q => ?_, fun h => by simp [wfArgs] at h, fun h => by simp [wfItems] at h⟩
+    have := iha.1 h.1 true none; have := ihi.1 h.2 (indexParen i) none
+    rw [T_index]; simp only [List.length_append, sz]; simp; omega
+  | range a i j iha ihi ihj =>
+    refine ⟨fun h p q => ?_, fun h => by simp [wfArgs] at h, fun h => by simp [wfItems] at h⟩
+    have := iha.1 h.1 true none; have := ihi.1 h.2.1 (indexParen i) none; have := ihj.1 h.2.2 (indexParen j) none
+    rw [T_range]; simp only [List.length_append, sz]; simp; omega
+  | query v s c ihs ihc =>
+    refine ⟨fun h p q => ?_, fun h => by simp [wfArgs] at h, fun h => by simp [wfItems] at h⟩
+    have := ihs.1 h.1 true none; have := ihc.1 h.2 true none
+    rw [T_query]; simp only [List.length_append, sz]; simp; omega
+  | call f as ih =>
+    refine ⟨fun h p q => ?_, fun h => by simp [wfArgs] at h, fun h => by simp [wfItems] at h⟩
+    have := ih.2.1 h
+    rw [T_call]; simp only [List.length_append, sz]; simp; omega
+  | aggr is ih =>
+    refine ⟨fun h p q => ?_, fun h => by simp [wfArgs] at h, fun h => by simp [wfItems] at h⟩
+    have := ih.2.2 h
+    rw [T_aggr]; simp only [List.length_append, sz]; simp; omega
+  | nil => exact ⟨fun h => by simp [wfE] at h, fun _ => by simp [sz, AT_nil], fun _ => by simp [sz, IT_nil]⟩
+  | cons e t ihe iht =>
+    refine ⟨fun h => by simp [wfE] at h, fun h => ?_, fun h => ?_⟩
+    · have h : wfE e ∧ wfArgs t := h
+      have := ihe.1 h.1 false none; have := iht.2.1 h.2; have := len_AT_false t
+      rw [AT_cons]; simp only [List.length_append, sz]; simp; omega
+    · have h : wfE e ∧ wfItems t := h
+      have := ihe.1 h.1 false none; have := iht.2.2 h.2; have := len_IT_false t
+      rw [IT_cons]; simp only [List.length_append, sz]; simp; omega
+  | rep e c t ihe ihc iht =>
+    refine ⟨fun h => by simp [wfE] at h, fun h => by simp [wfArgs] at h, fun h => ?_⟩
+    have h : wfE e ∧ wfE c ∧ wfItems t := h
+    have := ihe.1 h.1 false none; have := ihc.1 h.2.1 false none; have := iht.2.2 h.2.2; have := len_IT_false t
+    rw [IT_rep]; simp only [List.length_append, sz]; simp; omega
 
 end StepModel.Express
